@@ -18,13 +18,18 @@ type binder struct {
 	c    *Ctx
 	memo map[ssa.Value]string
 	busy map[ssa.Value]bool
+	// subst: set while the body of an inlined selector helper is bound: its parameters -> the bound arguments
+	subst   map[*ssa.Parameter]string
+	inlineD int
+	// classOf: rendered name of every module function that appears as an opaque call -> its signature class
+	classOf map[string]string
 	// carrier struct types whose fields are looked through (field-based): values stored into T.f
 	carriers map[string]bool
 	fieldSrc map[string][]ssa.Value // "Type.field" -> values stored (for carriers)
 }
 
 func newBinder(c *Ctx, carriers ...string) *binder {
-	b := &binder{c: c, memo: map[ssa.Value]string{}, busy: map[ssa.Value]bool{}, carriers: map[string]bool{}, fieldSrc: map[string][]ssa.Value{}}
+	b := &binder{c: c, memo: map[ssa.Value]string{}, busy: map[ssa.Value]bool{}, carriers: map[string]bool{}, fieldSrc: map[string][]ssa.Value{}, classOf: map[string]string{}}
 	for _, k := range carriers {
 		b.carriers[k] = true
 	}
@@ -96,7 +101,12 @@ func (b *binder) bind1(v ssa.Value, d int) string {
 		}
 		return "const:" + constKey(x)
 	case *ssa.Parameter:
-		return "param:" + x.Name()
+		if b.subst != nil {
+			if e, ok := b.subst[x]; ok {
+				return e
+			}
+		}
+		return paramRef(x)
 	case *ssa.FreeVar:
 		// captured variable: what the enclosing function stored into the cell
 		fn := x.Parent()
@@ -112,7 +122,7 @@ func (b *binder) bind1(v ssa.Value, d int) string {
 		}
 		return "captured:" + x.Name()
 	case *ssa.Global:
-		return "global:" + x.Name()
+		return globalRef(x)
 	case *ssa.Function:
 		return "func:" + x.Name()
 	case *ssa.MakeInterface:
@@ -142,14 +152,25 @@ func (b *binder) bind1(v ssa.Value, d int) string {
 				}
 			}
 		}
+		if call, ok := x.Tuple.(*ssa.Call); ok {
+			if cal := call.Call.StaticCallee(); cal != nil && !call.Call.IsInvoke() {
+				var as []string
+				for _, a := range call.Call.Args {
+					as = append(as, b.bindD(a, d+1))
+				}
+				if s, ok := b.inlineSelector(cal, as, x.Index, d); ok {
+					return s
+				}
+			}
+		}
 		return b.bindD(x.Tuple, d+1) + "#" + fmt.Sprint(x.Index)
 	case *ssa.Lookup:
 		if _, isMap := x.X.Type().Underlying().(*types.Map); isMap {
 			if vals := b.mapSide(x.X, false, d); vals != "" {
-				return "lookup(" + describeMapExpr(x.X) + "," + b.bindD(x.Index, d+1) + ")=>" + vals
+				return "lookup(" + mapRef(x.X) + "," + b.bindD(x.Index, d+1) + ")=>" + vals
 			}
 		}
-		return "lookup(" + describeMapExpr(x.X) + "," + b.bindD(x.Index, d+1) + ")"
+		return "lookup(" + mapRef(x.X) + "," + b.bindD(x.Index, d+1) + ")"
 	case *ssa.TypeAssert:
 		return b.bindD(x.X, d+1)
 	case *ssa.Slice:
@@ -250,7 +271,7 @@ func (b *binder) bind1(v ssa.Value, d int) string {
 			}
 			return b.bindD(a.X, d+1) + "[" + b.bindD(a.Index, d+1) + "]"
 		case *ssa.Global:
-			return "global:" + a.Name()
+			return globalRef(a)
 		case *ssa.FreeVar:
 			return b.bindD(a, d+1)
 		}
@@ -349,6 +370,26 @@ func (b *binder) fieldRef(base ssa.Value, field int, d int) string {
 			return alts(as)
 		}
 	}
+	if a, ok := base.(*ssa.Alloc); ok {
+		// a local struct variable: what was stored into this field (field stores), or the field of what was copied in
+		var as []string
+		for _, r := range *a.Referrers() {
+			if fa, ok := r.(*ssa.FieldAddr); ok && fa.Field == field {
+				for _, r2 := range *fa.Referrers() {
+					if st, ok := r2.(*ssa.Store); ok && st.Addr == ssa.Value(fa) {
+						as = append(as, b.bindD(st.Val, d+1))
+					}
+				}
+			}
+		}
+		for _, sv := range cellStores(a) {
+			as = append(as, selectField(b.bindD(sv, d+1), fname))
+		}
+		if len(as) > 0 {
+			return alts(as)
+		}
+		return "zero(" + typeName(deref(a.Type())) + ")." + fname
+	}
 	bs := b.bindD(base, d+1)
 	switch base.(type) {
 	case *ssa.FieldAddr, *ssa.IndexAddr:
@@ -402,6 +443,12 @@ func (b *binder) bindCall(x *ssa.Call, d int) string {
 	var as []string
 	for _, a := range cc.Args {
 		as = append(as, b.bindD(a, d+1))
+	}
+	if s, ok := b.inlineSelector(cal, as, -1, d); ok {
+		return s
+	}
+	if b.c.P.isModuleFn(cal) {
+		b.classOf[cal.Name()] = sigClass(cal)
 	}
 	fname := cal.Name()
 	if cal.Signature.Recv() != nil && !b.c.P.fnIndex[cal] {
@@ -476,3 +523,259 @@ func collectFieldStores(fns []*ssa.Function, tn string) []fieldStore {
 // resultCarriers: struct types whose fields are looked through field-based (a load of T.f is bound to whatever is
 // stored into T.f anywhere in the module).
 var resultCarriers = []string{"gtfs.ShapeRow", "gtfs.Agency", "gtfs.Route", "gtfs.Stop", "gtfs.Service", "gtfs.ScheduledTrip", "gtfs.Shape", "gtfs.Trip", "gtfs.TripID", "gtfs.Vehicle", "gtfs.VehicleID"}
+
+// paramRef renders a parameter by its type (and its rank among the parameters of the same type), never by its name:
+// renaming a parameter must not change any expression.
+func paramTypeName(t types.Type) string {
+	if namedOf(t) != nil {
+		return typeName(t)
+	}
+	return shortType(t)
+}
+
+func paramRef(x *ssa.Parameter) string {
+	tn := paramTypeName(x.Type())
+	n, k := 0, 0
+	if fn := x.Parent(); fn != nil {
+		for _, q := range fn.Params {
+			if paramTypeName(q.Type()) == tn {
+				if q == x {
+					k = n
+				}
+				n++
+			}
+		}
+	}
+	if n > 1 {
+		return fmt.Sprintf("param:<%s#%d>", tn, k)
+	}
+	return "param:<" + tn + ">"
+}
+
+// selectField renders e.f, distributing over alternatives and dropping an address-of prefix.
+func selectField(e, f string) string {
+	e = strings.TrimPrefix(e, "&")
+	if strings.HasPrefix(e, "(") && strings.HasSuffix(e, ")") && balanced(e[1:len(e)-1]) {
+		e = e[1 : len(e)-1]
+	}
+	return e + "." + f
+}
+
+func balanced(s string) bool {
+	d := 0
+	for _, r := range s {
+		switch r {
+		case '(':
+			d++
+		case ')':
+			d--
+			if d < 0 {
+				return false
+			}
+		}
+	}
+	return d == 0
+}
+
+// inlineSelector: a module helper whose result is, on every path, one of its arguments, a field / element / dereference
+// of one, or a constant (no call, no arithmetic beyond comparisons) is looked through: the call is rendered as the
+// alternatives of its results with the arguments substituted. Extracting such a helper from a function, or inlining
+// it back, then leaves every expression unchanged up to the set of alternatives. res = -1: single result.
+func (b *binder) inlineSelector(cal *ssa.Function, args []string, res int, d int) (string, bool) {
+	if !b.c.P.isModuleFn(cal) || len(cal.Blocks) == 0 || b.inlineD >= 3 || len(cal.Params) != len(args) || d > 20 {
+		return "", false
+	}
+	if isProtoPkg(fnPkgPath(cal)) {
+		return "", false
+	}
+	sub := &binder{c: b.c, memo: map[ssa.Value]string{}, busy: map[ssa.Value]bool{}, carriers: b.carriers, fieldSrc: b.fieldSrc, classOf: b.classOf,
+		subst: map[*ssa.Parameter]string{}, inlineD: b.inlineD + 1}
+	for i, p := range cal.Params {
+		sub.subst[p] = args[i]
+	}
+	var as []string
+	fromParam := false
+	for _, blk := range cal.Blocks {
+		ret, ok := blk.Instrs[len(blk.Instrs)-1].(*ssa.Return)
+		if !ok {
+			continue
+		}
+		idx := res
+		if idx < 0 {
+			if len(ret.Results) != 1 {
+				return "", false
+			}
+			idx = 0
+		}
+		if idx >= len(ret.Results) {
+			return "", false
+		}
+		if !selectorValue(ret.Results[idx], cal, 0) {
+			return "", false
+		}
+		if mentionsParam(ret.Results[idx], 0) {
+			fromParam = true
+		}
+		as = append(as, sub.bindD(ret.Results[idx], d+1))
+	}
+	if len(as) == 0 || !fromParam {
+		// a function that only ever returns constants is a decoder (its argument decides which), not a selector
+		return "", false
+	}
+	return alts(as), true
+}
+
+// selectorValue: v is built from parameters, constants, loads, field / element selections and phis only.
+func selectorValue(v ssa.Value, fn *ssa.Function, d int) bool {
+	if d > 12 {
+		return false
+	}
+	switch x := v.(type) {
+	case *ssa.Const, *ssa.Parameter:
+		return true
+	case *ssa.Phi:
+		for _, e := range x.Edges {
+			if !selectorValue(e, fn, d+1) {
+				return false
+			}
+		}
+		return true
+	case *ssa.UnOp:
+		return x.Op == token.MUL && selectorValue(x.X, fn, d+1)
+	case *ssa.FieldAddr:
+		return selectorValue(x.X, fn, d+1)
+	case *ssa.Field:
+		return selectorValue(x.X, fn, d+1)
+	case *ssa.IndexAddr:
+		return selectorValue(x.X, fn, d+1)
+	case *ssa.ChangeType:
+		return selectorValue(x.X, fn, d+1)
+	}
+	return false
+}
+
+func mentionsParam(v ssa.Value, d int) bool {
+	if d > 12 {
+		return false
+	}
+	switch x := v.(type) {
+	case *ssa.Parameter:
+		return true
+	case *ssa.Phi:
+		for _, e := range x.Edges {
+			if mentionsParam(e, d+1) {
+				return true
+			}
+		}
+	case *ssa.UnOp:
+		return mentionsParam(x.X, d+1)
+	case *ssa.FieldAddr:
+		return mentionsParam(x.X, d+1)
+	case *ssa.Field:
+		return mentionsParam(x.X, d+1)
+	case *ssa.IndexAddr:
+		return mentionsParam(x.X, d+1)
+	case *ssa.ChangeType:
+		return mentionsParam(x.X, d+1)
+	}
+	return false
+}
+
+// sigClass identifies a module function by what it converts, not by its name: the types of its parameters other than
+// context (options, location, extension) and of its results.
+func sigClass(fn *ssa.Function) string {
+	ctx := map[string]bool{"gtfs.ParseRealtimeOptions": true, "time.Location": true, "extensions.Extension": true, "gtfs.ParseStaticOptions": true}
+	var ps []string
+	for _, p := range fn.Params {
+		if ctx[typeName(p.Type())] {
+			continue
+		}
+		ps = append(ps, shortType(p.Type()))
+	}
+	var rs []string
+	res := fn.Signature.Results()
+	for i := 0; i < res.Len(); i++ {
+		rs = append(rs, shortType(res.At(i).Type()))
+	}
+	return "(" + strings.Join(ps, ",") + ")→(" + strings.Join(rs, ",") + ")"
+}
+
+func shortType(t types.Type) string {
+	return types.TypeString(t, func(p *types.Package) string { return p.Name() })
+}
+
+// classAllowed: call name cl (as rendered in an expression) is one of the allowed transformers: by name for functions
+// outside the module and exported API, by signature class for the module's own helpers (whatever they are called).
+func (b *binder) classAllowed(cl string, allowed []string) bool {
+	for _, a := range allowed {
+		if a == cl || (b.classOf[cl] != "" && a == b.classOf[cl]) {
+			return true
+		}
+	}
+	return false
+}
+
+// containsForm: expr contains the form, where a "{class}" placeholder stands for any module function of that class.
+func (b *binder) containsForm(expr, form string) bool {
+	i := strings.Index(form, "{")
+	j := strings.Index(form, "}")
+	if i < 0 || j < i {
+		return strings.Contains(expr, form)
+	}
+	cls := form[i+1 : j]
+	for n, c := range b.classOf {
+		if c == cls && strings.Contains(expr, form[:i]+n+form[j+1:]) {
+			return true
+		}
+	}
+	return false
+}
+
+// headClass: the signature class of the module function whose call is the outermost form of expr ("" if none).
+func (b *binder) headClass(expr string) string {
+	i := strings.Index(expr, "(")
+	if i <= 0 {
+		return ""
+	}
+	return b.classOf[expr[:i]]
+}
+
+// fnsByClass: the named (non-closure) functions among fns with the given signature class.
+func fnsByClass(fns []*ssa.Function, class string) []*ssa.Function {
+	var out []*ssa.Function
+	for _, f := range fns {
+		if sigClass(f) == class {
+			out = append(out, f)
+		}
+	}
+	return out
+}
+
+// globalRef renders a package-level variable: exported ones (API) by name, unexported ones by their type when that
+// type is unique among the package's unexported variables (renaming them changes nothing), else by name.
+func globalRef(g *ssa.Global) string {
+	if g.Object() == nil || g.Object().Exported() || g.Pkg == nil {
+		return "global:" + g.Name()
+	}
+	t := shortType(deref(g.Type()))
+	n := 0
+	for _, m := range g.Pkg.Members {
+		if og, ok := m.(*ssa.Global); ok && og.Object() != nil && !og.Object().Exported() && shortType(deref(og.Type())) == t {
+			n++
+		}
+	}
+	if n == 1 {
+		return "global:<" + t + ">"
+	}
+	return "global:" + g.Name()
+}
+
+// mapRef names a map in a lookup: package-level tables as globalRef, locals by their source name (for reading) and type.
+func mapRef(m ssa.Value) string {
+	if ld, ok := m.(*ssa.UnOp); ok {
+		if g, ok := ld.X.(*ssa.Global); ok {
+			return globalRef(g)
+		}
+	}
+	return describeMapExpr(m) + ":" + shortType(m.Type())
+}
